@@ -4,6 +4,7 @@ CONSTANTS
   Fix <- FixNone
   MaxOps = 4
   Free = FALSE
+  ReportMeansDead = FALSE
   Hist = TRUE
   Cases <- PlanCases
 INVARIANT PathDump
